@@ -312,6 +312,9 @@ def fit_case(draw, tier, kind, fd=False, negligible_x=False):
         opts['guess'] = 'far'
         opts['guess_fac'] = [draw(st.sampled_from([8.0, 0.1, -1.0, 30.0, 0.0])) for _ in range(npar)]
     opts['x_form'] = draw(st.sampled_from(['list', 'array']))
+    if kind == 'ls' and not fd and not negligible_x and opts['method'] == 'LM' and corr != 'supplied' and draw(st.integers(0, 3)) == 0:
+        # the same fit in other units of the ordinate (y -> s y, f -> s f): the parameters are the same observables
+        opts['units'] = draw(st.sampled_from([9, -9, 6, -6, 12, 3]))
     if members:
         opts['dict_rev'] = draw(st.booleans())
     spec['opts'] = opts
@@ -678,6 +681,48 @@ def ls_oracle(spec):
         for k in range(2):
             same_obs('fit_lin(numbers) vs least_squares, parameter %d' % k, res.fit_parameters[k], pl[k])
         labs.append('fit_lin')
+    if spec['opts']['corr'] == 'supplied' and c.members and len(set(c.groups)) > 1:
+        # the key list handed over with the factor states the order of its rows (documented: the keys of the y dict in
+        # alphabetical order); a factor labelled in another order must not be applied to the alphabetically ordered residuals
+        Lk = kw['inv_chol_cov_matrix']
+        bad = dict(kw, inv_chol_cov_matrix=[Lk[0], list(reversed(Lk[1]))])
+        try:
+            run_ls(c, bad)
+        except Violation:
+            raise
+        except Exception:
+            labs.append('mislabelled_factor:rejected')
+        else:
+            raise Violation('a supplied inverse Cholesky factor whose key list %r is not the alphabetical order of the fit keys was accepted'
+                            % (list(reversed(Lk[1])),))
+    u = spec['opts'].get('units')
+    # (not with num_grad: the step selection of the numerical Hessian is not scale covariant, deviations of 1e-5..1e-4 were seen)
+    if u and not spec['opts']['num_grad'] and not c.members and not any(it['kind'] == 'str' for it in (spec['priors'] or {'items': []})['items']):
+        # metamorphic relation: ordinate and model in units of 10^-u.  dp/dy scales with 1/s, the fluctuations of y with s.
+        s_ = 10.0 ** u
+        c2 = build(spec)
+        c2.y = [s_ * oo for oo in c2.y]
+        for oo in c2.y:
+            oo.gamma_method()
+        f1 = F.pe_func(c.fam)
+        if F.MODELS[c.fam]['xdim'] == 1:
+            f2 = lambda a, x: s_ * f1(a, x)  # noqa: E731
+        else:
+            f2 = lambda a, x: s_ * f1(a, x)  # noqa: E731
+        kw3 = dict(kw)
+        if guess(c) is not None:
+            kw3['initial_guess'] = guess(c)
+        if spec['opts']['num_grad']:
+            kw3['num_grad'] = True
+        res2 = fit_exceptions(c2, lambda: pe.least_squares(x_argument(c2), c2.y, f2, priors=c2.pri_arg, silent=True, **kw3))
+        for k in range(c.npar):
+            p1, p2 = res.fit_parameters[k], res2.fit_parameters[k]
+            p1.gamma_method()
+            rf = RefObs.from_pe(p1)
+            rf.vmag = max(rf.vmag, float(p1.dvalue) * 10.0)
+            cmp_obs(rf, p2, 'parameter %d of the same fit with ordinate and model in units of 1e%d' % (k, -u), rtol=1e-3, vtol=1e-5,
+                    check_rv=False, atol_scale=1e-4)      # (two minimisations of an ill-conditioned problem stop at slightly different points)
+        labs.append('units:1e%d' % u)
     return {'nt': nt, 'cls': labs}
 
 
@@ -841,6 +886,41 @@ def tls_vs_ls_oracle(spec):
 
 TVL_TOL = 1e-4
 
+# ---------------------------------------------------------------------------------------------- many data points
+# Fits with more than 200 data points (implementations may switch algorithms for long data vectors).  Hypothesis draws the
+# family, the size, the noise level and one integer; every other detail of the spec is a pure function of that integer.
+
+@st.composite
+def many_case(draw, tier):
+    import random
+    fam = draw(st.sampled_from(['exp', 'expc', 'cosh']))
+    M = F.MODELS[fam]
+    n = draw(st.integers(201, 215 if tier == 'quick' else 260))
+    rnd = random.Random(draw(st.integers(0, 2 ** 31 - 1)))
+    ptrue = [lo + (hi - lo) * rnd.uniform(0.2, 0.8) for lo, hi in M['box']]
+    lo, hi = M['xr'][0]
+    xs = [[lo + (hi - lo) * (i + rnd.uniform(0.1, 0.9)) / n for i in range(n)]]
+    fv = [F.model_float(fam, ptrue, [xs[0][i]]) for i in range(n)]
+    fscale = max(abs(v) for v in fv)
+    shared = draw(st.booleans())
+    L = draw(st.integers(24, 40))
+    rel = draw(st.sampled_from([0.01, 0.03, 0.08]))
+    start, gap = rnd.randint(0, 500), rnd.choice([1, 1, 2])
+    common = {'start': start, 'gap': gap, 'len': L, 'recipe': {'kind': 'white', 'seed': rnd.randint(0, 2 ** 31 - 1)}}
+    ypts = []
+    for i in range(n):
+        sigma = rel * max(abs(fv[i]), 0.2 * fscale)
+        name = 'A|r1' if shared else 'Y%d|r1' % i
+        wc = rnd.choice([0.0, 0.3, 0.6]) if shared else 0.0
+        ch = [{'name': name, 'idl': [start + gap * k for k in range(L)], 'form': 'range', 'sigma': sigma, 'wc': wc,
+               'own': {'kind': 'white', 'seed': rnd.randint(0, 2 ** 31 - 1)}, 'common': dict(common) if wc > 0 else None}]
+        # residuals of ordinary size (chi2/dof ~ 1): a term "residual x second derivative of the model" that is not negligible
+        ypts.append({'mean': fv[i] + rnd.gauss(0.0, 1.0) * sigma / math.sqrt(L), 'chains': ch})
+    return {'kind': 'ls', 'family': fam, 'ptrue': ptrue, 'x': xs, 'groups': [''] * n, 'y': ypts, 'layout': 'shared' if shared else 'indep',
+            'priors': None, 'opts': {'corr': None, 'num_grad': False, 'method': 'LM', 'guess': 'near',
+                                     'guess_fac': [rnd.uniform(0.95, 1.05) for _ in ptrue], 'x_form': 'list'}}
+
+
 SUBS = [
     Sub('ls', lambda tier: fit_case(tier, 'ls'), ls_oracle, {'quick': 60, 'thorough': 2000}, {'quick': 16, 'thorough': 16},
         doc='least_squares: stationarity, chisquare/dof, implicit-function fluctuations', max_skip_frac=0.3),
@@ -852,4 +932,7 @@ SUBS = [
     Sub('tls_vs_ls', lambda tier: fit_case(tier, 'tls', negligible_x=True), tls_vs_ls_oracle,
         {'quick': 20, 'thorough': 500}, {'quick': 8, 'thorough': 16},
         doc='total least squares with negligible x errors equals the ordinary fit', max_skip_frac=0.3),
+    Sub('many', many_case, ls_oracle, {'quick': 10, 'thorough': 80}, {'quick': 2, 'thorough': 8},
+        doc='least_squares with 201..260 data points and residuals of ordinary size: stationarity and implicit-function fluctuations',
+        max_skip_frac=0.5),
 ]
